@@ -50,6 +50,11 @@ theorem demo_rep : Rep [3, 0, 2] demoHeap := by
   rw [e] at this
   exact rep_of_inv this
 
+/-- what the accessors return on the witness: both walks, the ends and `Len`, computed -/
+example : walk (nextOf demoHeap) (frontOf demoHeap) 9 = [3, 0, 2] ∧
+    walk (prevOf demoHeap) (backOf demoHeap) 9 = [2, 0, 3] ∧ lenOf demoHeap = 3 ∧
+    prevOf demoHeap 1 = none ∧ nextOf demoHeap 1 = none ∧ valueOf demoHeap 1 = some 11 := by decide
+
 example : Op.wellFormed [3, 0, 2] (.moveBefore 2 3) ∧ Op.wellFormed [3, 0, 2] (.insertAfter 7 0) := by
   simp [Op.wellFormed]
 example := rep_step demo_rep (.moveAfter 3 0) (by simp [Op.wellFormed])
